@@ -14,7 +14,7 @@ From SplipyModel Require Import Spec.BSpline Model.Num Model.BasisDef Model.Basi
   Model.Append Model.WF Model.Ops Model.Ops2 Model.G2
   Proofs.KnotList Proofs.SpanCorrect Proofs.EvalConsequences Proofs.TensorLemmas Proofs.TensorApply Proofs.InsertMatrix
   Proofs.InsertObj Proofs.InsertEndToEnd Proofs.ObjEval Proofs.ReparamObj Proofs.ReparamEndToEnd Proofs.ReverseEndToEnd
-  Proofs.AppendProofs Proofs.WFProofs Proofs.G2Proofs.
+  Proofs.AppendProofs Proofs.WFProofs Proofs.G2Proofs Proofs.SwapEndToEnd Proofs.OrderProofs Proofs.LinAlg Proofs.InterpProofs.
 Import ListNotations.
 Open Scope R_scope.
 
@@ -77,21 +77,23 @@ Proof.
   - intros j Hj. rewrite <- (kn_in k j) by lia. left. apply C. exact Hj.
 Qed.
 
-(* a non-periodic knot insertion: the new basis *)
+(* a non-periodic knot insertion: the new basis and the matrix *)
 Lemma basis_insert_knot_nonper_knots (b b' : basis R) x C : b_per1 b = 0%nat ->
   basis_insert_knot b x = Ok (b', C) ->
-  b_start b <= x <= b_end b /\ b' = mkBasis (b_order b) (insert_at (b_knots b) (py_bisect_right (b_knots b) x) x) 0.
+  b_start b <= x <= b_end b /\ b' = mkBasis (b_order b) (insert_at (b_knots b) (py_bisect_right (b_knots b) x) x) 0 /\
+  C = mat_of_writes (b_nfun b + 1) (b_nfun b) (insert_writes (b_knots b) (b_order b) (b_nfun b) (py_bisect_right (b_knots b) x) x).
 Proof.
   intros Hper. unfold basis_insert_knot, wrap_knot. rewrite Hper. cbn [Nat.eqb negb]. cbn [nltb NumR].
   destruct (Rltb_spec x (b_start b)) as [A|A]; [discriminate|]. destruct (Rltb_spec (b_end b) x) as [A'|A']; [discriminate|].
-  cbn [orb]. cbv zeta. destruct (negb _); [discriminate|]. intros [= <- _]. split; [lra|reflexivity].
+  cbn [orb]. cbv zeta. destruct (negb _); [discriminate|]. intros [= <- <-]. split; [lra|split; reflexivity].
 Qed.
 
 Lemma knots_ok_insert (b b' : basis R) x C : knots_ok b -> b_per1 b = 0%nat ->
   basis_insert_knot b x = Ok (b', C) ->
-  knots_ok b' /\ b_per1 b' = 0%nat /\ b_start b' = b_start b /\ b_end b <= b_end b' /\ b_order b' = b_order b.
+  knots_ok b' /\ b_per1 b' = 0%nat /\ b_start b' = b_start b /\ b_end b <= b_end b' /\ b_order b' = b_order b /\
+  (x < b_end b -> b_end b' = b_end b).
 Proof.
-  intros (Hp & Hlen & HK & Hse) Hper E. destruct (basis_insert_knot_nonper_knots b b' x C Hper E) as [Hx ->].
+  intros (Hp & Hlen & HK & Hse) Hper E. destruct (basis_insert_knot_nonper_knots b b' x C Hper E) as (Hx & -> & _).
   set (k := b_knots b) in *. set (p := b_order b) in *. set (mu := py_bisect_right k x).
   destruct (bisect_right_spec (kn k) HK x (length k)) as (A & B & Cc). cbv zeta in *. fold (py_bisect_right k x) in A, B, Cc. fold mu in A, B, Cc.
   assert (Hmu : (p <= mu)%nat).
@@ -107,7 +109,752 @@ Proof.
     - destruct (Nat.eqb_spec (S (length k) - p) mu) as [Em|Nm].
       + apply B. lia.
       + replace (S (length k) - p - 1)%nat with (length k - p)%nat by lia. rewrite <- (kn_in k) by lia. lra. }
-  split; [|split; [reflexivity|split; [exact Hs|split; [exact He|reflexivity]]]].
+  assert (He' : x < b_end b -> b_end (mkBasis p (insert_at k mu x) 0) = b_end b).
+  { intros Hlt. unfold b_end. cbn [b_order b_knots]. fold k p. rewrite Hl. rewrite (kn_in (insert_at k mu x) (S (length k) - p)%nat ltac:(lia) 0).
+    rewrite nth_insert_at by exact A.
+    assert (Hm' : (mu <= length k - p)%nat).
+    { destruct (Nat.le_gt_cases mu (length k - p)) as [L|L]; [exact L|]. specialize (B (length k - p)%nat L). unfold b_end in Hlt. fold k p in Hlt. lra. }
+    destruct (Nat.ltb_spec (S (length k) - p) mu) as [L|L]; [lia|]. destruct (Nat.eqb_spec (S (length k) - p) mu) as [Em|Nm]; [lia|].
+    replace (S (length k) - p - 1)%nat with (length k - p)%nat by lia. symmetry. apply kn_in. lia. }
+  split; [|split; [reflexivity|split; [exact Hs|split; [exact He|split; [reflexivity|exact He']]]]].
   split; [exact Hp|]. split; [cbn [b_order b_knots]; fold p; lia|]. split; [apply insert_bisect_sorted; exact HK|].
   rewrite Hs. lra.
+Qed.
+
+(* ------------------------------------------------------------------------------------------------ *)
+(* the bases after the nine operations of Model/Ops.v *)
+Lemma Forall_nth_in {A} (P : A -> Prop) (l : list A) d dflt : Forall P l -> (d < length l)%nat -> P (nth d l dflt).
+Proof. intros H Hd. rewrite Forall_forall in H. apply H. apply nth_In. exact Hd. Qed.
+
+Lemma insert_knots_bases xs : forall (o o' : obj R) d, Forall knots_ok (o_bases o) -> (d < length (o_bases o))%nat ->
+  b_per1 (nth d (o_bases o) dflt_basis) = 0%nat -> obj_insert_knots o d xs = Ok o' ->
+  Forall knots_ok (o_bases o') /\ b_per1 (nth d (o_bases o') dflt_basis) = 0%nat /\
+  b_start (nth d (o_bases o') dflt_basis) = b_start (nth d (o_bases o) dflt_basis) /\
+  b_end (nth d (o_bases o) dflt_basis) <= b_end (nth d (o_bases o') dflt_basis) /\
+  b_order (nth d (o_bases o') dflt_basis) = b_order (nth d (o_bases o) dflt_basis) /\
+  (forall i, i <> d -> nth i (o_bases o') dflt_basis = nth i (o_bases o) dflt_basis) /\
+  o_dim o' = o_dim o /\ o_rat o' = o_rat o.
+Proof.
+  induction xs as [|x xs IH]; intros o o' d HB Hd Hper; cbn [obj_insert_knots].
+  - intros [= <-]. repeat split; auto. lra.
+  - fold dflt_basis. destruct (basis_insert_knot (nth d (o_bases o) dflt_basis) x) as [[b' C]|e] eqn:E; [|discriminate].
+    destruct (knots_ok_insert _ _ _ _ (Forall_nth_in _ _ d dflt_basis HB Hd) Hper E) as (K1 & K2 & K3 & K4 & K5 & _).
+    intros Hrun. apply IH in Hrun; cbn [o_bases o_dim o_rat] in *.
+    + rewrite InsertEndToEnd.upd_nth_same in Hrun by exact Hd.
+      destruct Hrun as (R1 & R2 & R3 & R4 & R5 & R6 & R7 & R8). split; [exact R1|]. split; [exact R2|].
+      split; [congruence|]. split; [lra|]. split; [congruence|]. split; [|split; assumption].
+      intros i Hi. rewrite R6 by exact Hi. apply upd_nth_other. exact Hi.
+    + apply Forall_upd; assumption.
+    + rewrite upd_length. exact Hd.
+    + rewrite InsertEndToEnd.upd_nth_same by exact Hd. exact K2.
+Qed.
+
+Lemma knots_ok_reverse (b : basis R) : knots_ok b ->
+  knots_ok (basis_reverse b) /\ b_start (basis_reverse b) = b_start b /\ b_end (basis_reverse b) = b_end b /\
+  b_per1 (basis_reverse b) = b_per1 b /\ b_nfun (basis_reverse b) = b_nfun b.
+Proof.
+  intros Hb. pose proof (knots_ne b Hb) as Hne. destruct Hb as (Hp & Hlen & HK & Hse).
+  rewrite (basis_reverse_eq b Hse).
+  set (a := b_start b) in *. set (e := b_end b) in *. set (k := b_knots b) in *. set (p := b_order b) in *.
+  assert (Hs : b_start (mkBasis p (rknots a e k) (b_per1 b)) = a).
+  { unfold b_start at 1. cbn [b_order b_knots]. rewrite rknots_kn by exact Hne.
+    replace (length k - 1 - (p - 1))%nat with (length k - p)%nat by lia. change (kn k (length k - p)%nat) with e. ring. }
+  assert (He : b_end (mkBasis p (rknots a e k) (b_per1 b)) = e).
+  { unfold b_end at 1. cbn [b_order b_knots]. rewrite rknots_length, rknots_kn by exact Hne.
+    replace (length k - 1 - (length k - p))%nat with (p - 1)%nat by lia. change (kn k (p - 1)%nat) with a. ring. }
+  split; [|split; [exact Hs|split; [exact He|split; [reflexivity|]]]].
+  - split; [exact Hp|]. split; [cbn [b_order b_knots]; rewrite rknots_length; exact Hlen|]. split; [|rewrite Hs, He; exact Hse].
+    cbn [b_knots]. intros i j Hij. rewrite !rknots_kn by exact Hne. pose proof (HK (length k - 1 - j)%nat (length k - 1 - i)%nat ltac:(lia)). lra.
+  - unfold b_nfun. cbn [b_order b_knots b_per1]. rewrite rknots_length. reflexivity.
+Qed.
+
+Lemma knots_ok_reparam (b b' : basis R) s e : knots_ok b -> basis_reparam b s e = Ok b' ->
+  knots_ok b' /\ b_start b' = s /\ b_end b' = e /\ b_per1 b' = b_per1 b /\ b_order b' = b_order b /\
+  length (b_knots b') = length (b_knots b).
+Proof.
+  intros Hb E. pose proof (knots_ne b Hb) as Hne. destruct Hb as (Hp & Hlen & HK & Hse).
+  assert (Hlt : s < e).
+  { unfold basis_reparam in E. cbn [nleb NumR] in E. destruct (Rleb_spec e s); [discriminate|lra]. }
+  rewrite (basis_reparam_ok b Hne Hse s e Hlt) in E. injection E as <-.
+  pose proof (rp_start b Hne s e) as Hs. pose proof (rp_end b Hne Hse s e) as He.
+  split; [|split; [exact Hs|split; [exact He|split; [reflexivity|split; [reflexivity|cbn [rp_basis b_knots]; apply map_length]]]]].
+  split; [exact Hp|]. split; [cbn [rp_basis b_order b_knots]; rewrite map_length; exact Hlen|]. split; [|rewrite Hs, He; exact Hlt].
+  cbn [rp_basis b_knots]. unfold rp_map. apply sorted_aff; [apply rp_al_pos; assumption|exact Hne|exact HK].
+Qed.
+
+(* the guard of the old operations: knot insertion wants a non-periodic direction *)
+Definition guard_old (o : obj R) (a : @op R) : Prop :=
+  match a with
+  | OpInsert d xs => b_per1 (nth d (o_bases o) dflt_basis) = 0%nat
+  | _ => True
+  end.
+
+Lemma bases_set_dim (o : obj R) n : o_bases (obj_set_dimension o n) = o_bases o.
+Proof. reflexivity. Qed.
+
+Theorem step_preserves_inv (o o' : obj R) (a : @op R) : inv o -> guard_old o a -> step o a = Ok o' -> inv o'.
+Proof.
+  intros [HS HB] G E. split; [exact (proj1 (step_preserves_shape o o' a HS E))|].
+  destruct a as [d xs|d|d1 d2|d s e|x|s|keep|n|]; cbn [step guard_old] in *; unfold o_pardim in *.
+  - destruct (Nat.ltb_spec d (length (o_bases o))) as [Hd|Hd]; [|discriminate].
+    exact (proj1 (insert_knots_bases xs o o' d HB Hd G E)).
+  - destruct (Nat.ltb_spec d (length (o_bases o))) as [Hd|Hd]; [|discriminate]. injection E as <-.
+    unfold obj_reverse. cbv zeta. cbn [o_bases]. apply Forall_upd; [exact HB|].
+    apply knots_ok_reverse. apply Forall_nth_in; assumption.
+  - destruct (Nat.ltb_spec d1 (length (o_bases o))) as [H1|H1]; [|discriminate].
+    destruct (Nat.ltb_spec d2 (length (o_bases o))) as [H2|H2]; [|discriminate]. cbn [andb] in E. injection E as <-.
+    unfold obj_swap, o_pardim. destruct (length (o_bases o) =? 1)%nat; [exact HB|]. cbv zeta. cbn [o_bases]. unfold swap_idx.
+    apply Forall_upd; [apply Forall_upd; [exact HB|]|]; apply Forall_nth_in; assumption.
+  - destruct (Nat.ltb_spec d (length (o_bases o))) as [Hd|Hd]; [|discriminate].
+    unfold obj_reparam_dir in E. destruct (basis_reparam (nth d (o_bases o) (mkBasis 0 [] 0)) s e) as [b'|er] eqn:Eb; [|discriminate].
+    injection E as <-. cbn [o_bases]. apply Forall_upd; [exact HB|].
+    refine (proj1 (knots_ok_reparam _ b' s e _ Eb)). apply Forall_nth_in; assumption.
+  - unfold obj_translate in E. cbv zeta in E.
+    destruct (o_dim o <? length x)%nat; (destruct (length x <? _)%nat; [discriminate|]); injection E as <-; exact HB.
+  - unfold obj_scale in E. cbv zeta in E. destruct (_ <? _)%nat; [discriminate|]. injection E as <-. exact HB.
+  - injection E as <-. exact HB.
+  - injection E as <-. exact HB.
+  - injection E as <-. unfold obj_force_rational. destruct (o_rat o); exact HB.
+Qed.
+
+(* ------------------------------------------------------------------------------------------------ *)
+(* rotate / mirror: only the control points change *)
+Lemma rotate_inv (o o' : obj R) ch sh normal iv : inv o -> obj_rotate o ch sh normal iv = Ok o' -> inv o' /\ o_bases o' = o_bases o.
+Proof.
+  intros [HS HB]. unfold obj_rotate. cbv zeta.
+  match goal with |- context [if ?c then o else obj_set_dimension o 3] => set (cnd := c); set (o1 := if cnd then o else obj_set_dimension o 3) end.
+  assert (HS1 : shape_ok o1) by (unfold o1; destruct cnd; [exact HS|apply shape_ok_set_dimension; exact HS]).
+  assert (HB1 : o_bases o1 = o_bases o) by (unfold o1; destruct cnd; reflexivity).
+  destruct (Nat.eqb_spec (o_dim o1) 2) as [E2|N2].
+  - match goal with |- Ok ?x = Ok _ -> _ => set (res := x) end. intros [= <-]. unfold res.
+    split; [|exact HB1]. split; [|cbn [map_cps o_bases]; rewrite HB1; exact HB].
+    unfold map_cps. apply (shape_ok_map_cps o1 _ (o_dim o1) (o_rat o1) HS1).
+    intros v Hv. rewrite app_length, skipn_length. cbn [length]. unfold o_ncomp in Hv. lia.
+  - destruct (Nat.eqb_spec (o_dim o1) 3) as [E3|N3]; [|discriminate].
+    match goal with |- Ok ?x = Ok _ -> _ => set (res := x) end. intros [= <-]. unfold res.
+    split; [|exact HB1]. split; [|cbn [map_cps o_bases]; rewrite HB1; exact HB].
+    unfold map_cps. apply (shape_ok_map_cps o1 _ (o_dim o1) (o_rat o1) HS1).
+    intros v Hv. rewrite app_length, skipn_length. unfold vecmat. rewrite map_length, seq_length. unfold o_ncomp in Hv. lia.
+Qed.
+
+Lemma mirror_inv (o o' : obj R) normal iv : inv o -> obj_mirror o normal iv = Ok o' -> inv o' /\ o_bases o' = o_bases o.
+Proof.
+  intros [HS HB]. unfold obj_mirror. destruct (Nat.eqb_spec (o_dim o) 3) as [E3|N3]; [|discriminate]. cbn [negb]. cbv zeta.
+  match goal with |- Ok ?x = Ok _ -> _ => set (res := x) end. intros [= <-]. unfold res.
+  split; [|reflexivity]. split; [|exact HB].
+  unfold map_cps. apply (shape_ok_map_cps o _ (o_dim o) (o_rat o) HS).
+  intros v Hv. rewrite app_length, skipn_length. unfold vecmat. rewrite map_length, seq_length. unfold o_ncomp in Hv. lia.
+Qed.
+
+(* ------------------------------------------------------------------------------------------------ *)
+(* section *)
+Definition pinned (s : nat) : bool := (s =? 0)%nat || (s =? 1)%nat.
+
+Fixpoint pin_shape (shape : list nat) (sels : list nat) (d : nat) : list nat :=
+  match sels with
+  | [] => shape
+  | s :: rest => if pinned s then pin_shape (upd shape d 1%nat) rest (S d) else pin_shape shape rest (S d)
+  end.
+
+Lemma pin_shape_cons a shape sels : forall d, pin_shape (a :: shape) sels (S d) = a :: pin_shape shape sels d.
+Proof.
+  revert shape. induction sels as [|s rest IH]; intros shape d; cbn [pin_shape]; [reflexivity|].
+  destruct (pinned s); cbn [upd]; apply IH.
+Qed.
+
+Lemma section_cps_shape ncomp : forall sels shape d (cps : list (list R)), length cps = prodl shape -> (0 < prodl shape)%nat ->
+  Forall (fun v => length v = ncomp) cps -> (d + length sels <= length shape)%nat ->
+  length (fst (section_cps ncomp shape sels d cps)) = prodl (snd (section_cps ncomp shape sels d cps)) /\
+  Forall (fun v => length v = ncomp) (fst (section_cps ncomp shape sels d cps)) /\
+  snd (section_cps ncomp shape sels d cps) = pin_shape shape sels d.
+Proof.
+  induction sels as [|s rest IH]; intros shape d cps HL HP HV Hd; cbn [section_cps pin_shape]; [cbn [fst snd]; auto|].
+  cbn [length] in Hd. unfold pinned.
+  assert (G : forall idx, let cps' := apply_dir ncomp shape d (sel_matrix (nth d shape 0%nat) idx) cps in
+     length cps' = prodl (upd shape d 1%nat) /\ (0 < prodl (upd shape d 1%nat))%nat /\ Forall (fun v => length v = ncomp) cps').
+  { intros idx. cbv zeta. split; [|split].
+    - rewrite length_apply_dir; [reflexivity|lia|exact HL|exact HP].
+    - apply prodl_upd_pos; [exact HP|lia].
+    - apply Forall_apply_dir. exact HV. }
+  destruct (s =? 0)%nat; cbn [orb].
+  - destruct (G 0%nat) as (G1 & G2 & G3). apply IH; try assumption. rewrite length_upd. lia.
+  - destruct (s =? 1)%nat.
+    + destruct (G (nth d shape 0 - 1)%nat) as (G1 & G2 & G3). apply IH; try assumption. rewrite length_upd. lia.
+    + apply IH; try assumption. lia.
+Qed.
+
+Definition free_bases (sels : list nat) (bs : list (basis R)) : list (basis R) :=
+  map snd (filter (fun sb : nat * basis R => negb ((fst sb =? 0)%nat || (fst sb =? 1)%nat)) (combine sels bs)).
+
+Lemma pin_shape_free : forall (bs : list (basis R)) sels, length sels = length bs ->
+  prodl (pin_shape (map (@b_nfun R) bs) sels 0) = prodl (map (@b_nfun R) (free_bases sels bs)).
+Proof.
+  induction bs as [|b bs IH]; intros sels Hl; destruct sels as [|s sels]; try discriminate; [reflexivity|].
+  cbn [map pin_shape]. unfold free_bases. cbn [combine filter fst snd]. unfold pinned.
+  destruct ((s =? 0)%nat || (s =? 1)%nat); cbn [negb upd map]; rewrite pin_shape_cons; cbn [prodl fold_right];
+    fold (prodl (pin_shape (map (@b_nfun R) bs) sels 0)); rewrite IH by (cbn in Hl; lia); unfold free_bases; cbn [snd]; unfold prodl; lia.
+Qed.
+
+Lemma section_inv (o : obj R) sels : inv o -> length sels = length (o_bases o) ->
+  inv (obj_section o sels) /\ o_bases (obj_section o sels) = free_bases sels (o_bases o) /\
+  o_dim (obj_section o sels) = o_dim o /\ o_rat (obj_section o sels) = o_rat o.
+Proof.
+  intros [(HL & HV & HP) HB] Hl. split; [|repeat split].
+  fold (prodl (o_shape o)) in HL, HP.
+  destruct (section_cps_shape (o_ncomp o) sels (o_shape o) 0 (o_cps o) HL HP HV) as (S1 & S2 & S3).
+  { unfold o_shape. rewrite map_length. lia. }
+  assert (EP : prodl (snd (section_cps (o_ncomp o) (o_shape o) sels 0 (o_cps o))) = prodl (map (@b_nfun R) (free_bases sels (o_bases o)))).
+  { rewrite S3. unfold o_shape. apply pin_shape_free. exact Hl. }
+  rewrite EP in S1.
+  assert (PP : (0 < prodl (map (@b_nfun R) (free_bases sels (o_bases o))))%nat).
+  { apply prodl_pos_iff. rewrite Forall_map.
+    pose proof (inv_nfun_pos o (conj (conj HL (conj HV HP)) HB)) as HN.
+    unfold free_bases. apply Forall_forall. intros b Hb. apply in_map_iff in Hb. destruct Hb as ([s b'] & <- & Hin).
+    apply filter_In in Hin. destruct Hin as [Hin _]. apply in_combine_r in Hin. rewrite Forall_forall in HN. apply HN. exact Hin. }
+  split.
+  - split; [exact S1|]. split; [exact S2|exact PP].
+  - unfold obj_section. cbn [o_bases]. apply Forall_forall. intros b Hb. apply in_map_iff in Hb. destruct Hb as ([s b'] & <- & Hin).
+    apply filter_In in Hin. destruct Hin as [Hin _]. apply in_combine_r in Hin. rewrite Forall_forall in HB. apply HB. exact Hin.
+Qed.
+
+(* ------------------------------------------------------------------------------------------------ *)
+(* positivity of one coordinate (the weight) through a matrix applied along a direction: every row of the matrix is
+   non-negative with at least one positive entry *)
+Definition pos_row (n : nat) (row : list R) : Prop :=
+  length row = n /\ Forall (fun x => 0 <= x) row /\ Exists (fun x => 0 < x) row.
+
+Lemma lc_nonneg c row vs : Forall (fun x => 0 <= x) row -> Forall (fun v => 0 < coord c v) vs -> 0 <= lc c row vs.
+Proof.
+  revert vs. induction row as [|x row IH]; intros vs Hr Hv; [rewrite lc_nil_l; lra|].
+  destruct vs as [|v vs]; [rewrite lc_nil_r; lra|]. rewrite lc_cons. inversion Hr; subst. inversion Hv; subst.
+  specialize (IH vs H2 H4). nra.
+Qed.
+
+Lemma lc_pos c row vs : length row = length vs -> Forall (fun x => 0 <= x) row -> Exists (fun x => 0 < x) row ->
+  Forall (fun v => 0 < coord c v) vs -> 0 < lc c row vs.
+Proof.
+  revert vs. induction row as [|x row IH]; intros vs Hl Hr He Hv; [inversion He|].
+  destruct vs as [|v vs]; [cbn in Hl; lia|]. rewrite lc_cons. inversion Hr; subst. inversion Hv; subst.
+  inversion He; subst.
+  - pose proof (lc_nonneg c row vs H2 H4). nra.
+  - specialize (IH vs ltac:(cbn in Hl; lia) H2 H0 H4). nra.
+Qed.
+
+Lemma apply_dir_wpos dim w (C : list (list R)) : (w < dim)%nat -> forall shape d cps, (d < length shape)%nat ->
+  length cps = prodl shape -> (0 < prodl shape)%nat -> Forall (pos_row (nth d shape 0%nat)) C ->
+  Forall (fun v => length v = dim) cps -> Forall (fun v => 0 < coord w v) cps ->
+  Forall (fun v => 0 < coord w v) (apply_dir dim shape d C cps).
+Proof.
+  intros Hw. induction shape as [|n shape IH]; intros d cps Hd Hl Hpos HC HV HW; [cbn in Hd; lia|].
+  cbn [apply_dir]. cbv zeta.
+  cbn [prodl fold_right] in Hl, Hpos. fold (prodl shape) in Hl, Hpos.
+  assert (Hn : (0 < n)%nat) by nia. assert (Hps : (0 < prodl shape)%nat) by nia.
+  assert (Hm : (length cps / n = prodl shape)%nat) by (rewrite Hl, Nat.mul_comm; apply Nat.div_mul; lia).
+  rewrite Hm. destruct d as [|d].
+  - cbn [nth] in HC. apply Forall_concat. apply Forall_forall. intros l Hin. apply in_map_iff in Hin. destruct Hin as (row & <- & Hrow).
+    rewrite Forall_forall in HC. destruct (HC row Hrow) as (R1 & R2 & R3).
+    unfold chunks_lincomb. apply Forall_forall. intros v Hin. apply in_map_iff in Hin. destruct Hin as (s & <- & Hs). apply in_seq in Hs.
+    assert (G : forall i, (i < n)%nat -> In (nth s (chunk (prodl shape) i cps) (vzero dim)) cps).
+    { intros i Hi. rewrite nth_chunk by lia. apply nth_In. nia. }
+    rewrite vlincomb_coord; [|rewrite Forall_map; apply Forall_forall; intros ch Hch; apply in_map_iff in Hch;
+       destruct Hch as (i & <- & Hi); apply in_seq in Hi; rewrite Forall_forall in HV; apply HV; apply G; lia|exact Hw].
+    apply lc_pos; [rewrite !map_length, seq_length; exact R1|exact R2|exact R3|].
+    rewrite Forall_map. apply Forall_forall. intros ch Hch. apply in_map_iff in Hch. destruct Hch as (i & <- & Hi). apply in_seq in Hi.
+    rewrite Forall_forall in HW. apply HW. apply G. lia.
+  - cbn [nth] in HC. apply Forall_concat. apply Forall_forall. intros l Hin. apply in_map_iff in Hin. destruct Hin as (ch & <- & Hch).
+    apply in_map_iff in Hch. destruct Hch as (i & <- & Hi). apply in_seq in Hi.
+    apply IH; [cbn in Hd; lia| |exact Hps|exact HC|apply Forall_chunk; exact HV|apply Forall_chunk; exact HW].
+    apply length_chunk. rewrite Hl. nia.
+Qed.
+
+(* 0/1 selection rows *)
+Lemma unit_pos_row n i : (i < n)%nat -> pos_row n (map (fun j => if (j =? i)%nat then 1 else 0) (seq 0 n)).
+Proof.
+  intros Hi. split; [rewrite map_length, seq_length; reflexivity|]. split.
+  - apply Forall_forall. intros x Hx. apply in_map_iff in Hx. destruct Hx as (j & <- & _). destruct (j =? i)%nat; lra.
+  - apply Exists_exists. exists 1. split; [|lra]. apply in_map_iff. exists i. rewrite Nat.eqb_refl. split; [reflexivity|apply in_seq; lia].
+Qed.
+
+(* the rows of the knot insertion matrix (non-periodic basis, new knot strictly below the end of the domain) *)
+Lemma div_nonneg a b : 0 <= a -> 0 <= b -> 0 <= a / b.
+Proof.
+  intros Ha Hb. destruct (Req_dec b 0) as [->|N]; [unfold Rdiv; rewrite Rinv_0; lra|].
+  apply Rmult_le_pos; [exact Ha|]. left. apply Rinv_0_lt_compat. lra.
+Qed.
+
+Lemma insert_matrix_pos_rows (k : list R) p x : sorted (kn k) -> (1 <= p)%nat -> (2 * p <= length k)%nat ->
+  kn k (p - 1) <= x < kn k (length k - p) ->
+  Forall (pos_row (length k - p))
+    (mat_of_writes (length k - p + 1) (length k - p) (insert_writes k p (length k - p) (py_bisect_right k x) x)).
+Proof.
+  intros HK Hp Hlen Hx. destruct (mu_bracket k p x HK Hp Hlen Hx) as [Hmu Hbr].
+  set (n := (length k - p)%nat) in *. set (mu := py_bisect_right k x) in *.
+  pose proof (insert_matrix_entries k p mu x Hp Hmu Hbr) as ENT. fold n in ENT.
+  assert (Ha : forall c, (mu - p <= c < mu)%nat -> 0 <= a_entry k p x c).
+  { intros c Hc. unfold a_entry. destruct (_ && _); [lra|]. apply div_nonneg.
+    - pose proof (HK c (mu - 1)%nat ltac:(lia)). lra.
+    - pose proof (HK c (c + p - 1)%nat ltac:(lia)). lra. }
+  assert (Hb : forall c, (mu - p <= c < mu)%nat -> 0 <= b_entry k p x c).
+  { intros c Hc. unfold b_entry. destruct (_ && _); [lra|]. apply div_nonneg.
+    - pose proof (HK mu (c + p)%nat ltac:(lia)). lra.
+    - pose proof (HK (c + 1)%nat (c + p)%nat ltac:(lia)). lra. }
+  apply Forall_forall. intros row Hrow. unfold mat_of_writes in Hrow. apply in_map_iff in Hrow. destruct Hrow as (r & <- & Hr).
+  apply in_seq in Hr. split; [rewrite map_length, seq_length; reflexivity|]. split.
+  - apply Forall_forall. intros v Hv. apply in_map_iff in Hv. destruct Hv as (c & <- & Hc). apply in_seq in Hc.
+    rewrite ENT by lia. destruct (Nat.ltb_spec c (mu - p)) as [L'|L']; [destruct (r =? c)%nat; lra|].
+    destruct (Nat.ltb_spec c mu) as [L|L].
+    + destruct (r =? c)%nat; [apply Ha; lia|]. destruct (r =? c + 1)%nat; [apply Hb; lia|lra].
+    + destruct (r =? c + 1)%nat; lra.
+  - apply Exists_exists.
+    assert (W : exists c, (c < n)%nat /\ 0 < lookup_last (insert_writes k p n mu x) r c).
+    { destruct (Nat.lt_ge_cases r (mu - p)) as [C1|C1].
+      - exists r. split; [lia|]. rewrite ENT by lia. destruct (Nat.ltb_spec r (mu - p)); [|lia]. rewrite Nat.eqb_refl. lra.
+      - destruct (Nat.eq_dec r (mu - p)) as [C2|C2].
+        + exists r. split; [lia|]. rewrite ENT by lia. destruct (Nat.ltb_spec r (mu - p)); [lia|].
+          destruct (Nat.ltb_spec r mu); [|lia]. rewrite Nat.eqb_refl. unfold a_entry.
+          replace (r + p - 1)%nat with (mu - 1)%nat by lia. replace (r + p)%nat with mu by lia.
+          destruct (Rleb_spec (kn k (mu - 1)%nat) x); [|lra]. destruct (Rleb_spec x (kn k mu)); [cbn [andb]; lra|lra].
+        + destruct (Nat.le_gt_cases r mu) as [C3|C3].
+          * exists (r - 1)%nat. split; [lia|]. rewrite ENT by lia. destruct (Nat.ltb_spec (r - 1) (mu - p)); [lia|].
+            destruct (Nat.ltb_spec (r - 1) mu); [|lia]. destruct (Nat.eqb_spec r (r - 1)); [lia|].
+            destruct (Nat.eqb_spec r (r - 1 + 1)); [|lia]. unfold b_entry.
+            destruct (Rleb (kn k (r - 1)%nat) x && Rleb x (kn k (r - 1 + 1)%nat)) eqn:Eb; [lra|].
+            assert (Hr' : (r < mu)%nat).
+            { destruct (Nat.eq_dec r mu) as [->|]; [|lia]. exfalso. replace (mu - 1 + 1)%nat with mu in Eb by lia.
+              destruct (Rleb_spec (kn k (mu - 1)%nat) x); [|lra]. destruct (Rleb_spec x (kn k mu)); [discriminate|lra]. }
+            pose proof (HK mu (r - 1 + p)%nat ltac:(lia)). pose proof (HK (r - 1 + 1)%nat (mu - 1)%nat ltac:(lia)).
+            apply Rdiv_lt_0_compat; lra.
+          * exists (r - 1)%nat. split; [lia|]. rewrite ENT by lia. destruct (Nat.ltb_spec (r - 1) (mu - p)); [lia|].
+            destruct (Nat.ltb_spec (r - 1) mu); [lia|]. destruct (Nat.eqb_spec r (r - 1 + 1)); [lra|lia]. }
+    destruct W as (c & Hc & Hpos). exists (lookup_last (insert_writes k p n mu x) r c). split; [|exact Hpos].
+    apply in_map_iff. exists c. split; [reflexivity|apply in_seq; lia].
+Qed.
+
+(* ------------------------------------------------------------------------------------------------ *)
+(* positive weights through the nine operations of Model/Ops.v *)
+Lemma nth_app_skipn (a v : list R) m m' : length a = m -> nth m (a ++ skipn m' v) 0 = nth m' v 0.
+Proof. intros Ha. rewrite app_nth2 by lia. rewrite Ha, Nat.sub_diag, nth_skipn_add. f_equal. lia. Qed.
+
+Lemma weights_map_cps (o : obj R) (f : list R -> list R) (dim' : nat) (rat' : bool) :
+  shape_ok o -> weights_pos o ->
+  (rat' = true -> forall v, length v = o_ncomp o -> (o_rat o = true -> 0 < nth (o_dim o) v 0) -> 0 < nth dim' (f v) 0) ->
+  weights_pos (mkObj (o_bases o) (map f (o_cps o)) dim' rat').
+Proof.
+  intros (_ & HV & _) HW Hf. unfold weights_pos in *. cbn [o_rat o_cps o_dim]. intros Hr.
+  rewrite Forall_map. apply Forall_forall. intros v Hv. rewrite Forall_forall in HV. apply (Hf Hr v (HV v Hv)).
+  intros Hro. specialize (HW Hro). rewrite Forall_forall in HW. apply HW. exact Hv.
+Qed.
+
+Lemma weights_set_dimension (o : obj R) n : shape_ok o -> weights_pos o -> weights_pos (obj_set_dimension o n).
+Proof.
+  intros HS HW. unfold obj_set_dimension. apply (weights_map_cps o _ n (o_rat o) HS HW).
+  intros Hr v Hv Hw. unfold pt_set_dim. cbv zeta. unfold o_ncomp in Hv. rewrite Hr in Hv.
+  rewrite nth_app_skipn; [apply Hw; exact Hr|].
+  destruct (Nat.leb_spec (o_dim o) n).
+  - rewrite app_length, firstn_length, repeat_length. lia.
+  - rewrite !firstn_length. lia.
+Qed.
+
+Lemma insert_knots_weights xs : forall (o o' : obj R) d, inv o -> weights_pos o -> (d < length (o_bases o))%nat ->
+  b_per1 (nth d (o_bases o) dflt_basis) = 0%nat -> Forall (fun x => x < b_end (nth d (o_bases o) dflt_basis)) xs ->
+  obj_insert_knots o d xs = Ok o' -> weights_pos o'.
+Proof.
+  induction xs as [|x xs IH]; intros o o' d HI HW Hd Hper Hxs; cbn [obj_insert_knots]; [intros [= <-]; exact HW|].
+  fold dflt_basis. set (bd := nth d (o_bases o) dflt_basis) in *.
+  destruct (basis_insert_knot bd x) as [[b' C]|e] eqn:E; [|discriminate].
+  set (o1 := mkObj (upd (o_bases o) d b') (apply_dir (o_ncomp o) (o_shape o) d C (o_cps o)) (o_dim o) (o_rat o)).
+  assert (E1 : step o (OpInsert d [x]) = Ok o1).
+  { cbn [step]. unfold o_pardim. destruct (Nat.ltb_spec d (length (o_bases o))); [|lia]. cbn [obj_insert_knots]. fold dflt_basis. fold bd. rewrite E. reflexivity. }
+  pose proof (step_preserves_inv o o1 (OpInsert d [x]) HI Hper E1) as HI1.
+  destruct HI as [HS HB]. pose proof (Forall_nth_in _ _ d dflt_basis HB Hd) as Hbd. fold bd in Hbd.
+  inversion Hxs as [|? ? Hx Hxs']; subst.
+  destruct (knots_ok_insert bd b' x C Hbd Hper E) as (K1 & K2 & K3 & K4 & K5 & K6). specialize (K6 Hx).
+  destruct (basis_insert_knot_nonper_knots bd b' x C Hper E) as (Hxr & _ & EC).
+  apply (IH o1 o' d HI1); [|cbn [o1 o_bases]; rewrite upd_length; exact Hd| | ].
+  - (* weights of o1 *)
+    unfold weights_pos. cbn [o1 o_rat o_cps o_dim]. intros Hr. destruct HS as (HL & HV & HP).
+    apply (apply_dir_wpos (o_ncomp o) (o_dim o)).
+    + unfold o_ncomp. rewrite Hr. lia.
+    + unfold o_shape. rewrite map_length. exact Hd.
+    + exact HL.
+    + exact HP.
+    + rewrite o_shape_nth by exact Hd. fold dflt_basis. fold bd. rewrite EC.
+      destruct Hbd as (Hp & Hlen & HK & Hse). unfold b_nfun. rewrite Hper, Nat.sub_0_r.
+      apply insert_matrix_pos_rows; try assumption. unfold b_start, b_end in *. lra.
+    + exact HV.
+    + apply HW. exact Hr.
+  - cbn [o1 o_bases]. rewrite InsertEndToEnd.upd_nth_same by exact Hd. exact K2.
+  - cbn [o1 o_bases]. rewrite InsertEndToEnd.upd_nth_same by exact Hd. rewrite K6. exact Hxs'.
+Qed.
+
+Lemma reindex_Forall {A} (P : A -> Prop) (dflt : A) sh sh' fn (cps : list A) : Forall P cps -> length cps = prodl sh ->
+  (forall idx, inshape idx sh' -> inshape (fn idx) sh) -> Forall P (reindex dflt sh sh' fn cps).
+Proof.
+  intros HP HL Hfn. unfold reindex. rewrite Forall_map. apply Forall_forall. intros fl Hfl. apply in_seq in Hfl.
+  rewrite Forall_forall in HP. apply HP. apply nth_In. rewrite HL. apply SwapEndToEnd.ravel_lt. apply Hfn.
+  apply unravel_inshape. unfold prodl. lia.
+Qed.
+
+(* knot insertion keeps the weights positive when the new knots lie strictly below the end of the domain *)
+Definition guard_w_old (o : obj R) (a : @op R) : Prop :=
+  match a with
+  | OpInsert d xs => Forall (fun x => x < b_end (nth d (o_bases o) dflt_basis)) xs
+  | _ => True
+  end.
+
+Theorem step_preserves_weights (o o' : obj R) (a : @op R) : inv o -> weights_pos o -> guard_old o a -> guard_w_old o a ->
+  step o a = Ok o' -> weights_pos o'.
+Proof.
+  intros HI HW G GW E. pose proof HI as [HS HB].
+  destruct a as [d xs|d|d1 d2|d s e|x|s|keep|n|]; cbn [step guard_old guard_w_old] in *; unfold o_pardim in *.
+  - destruct (Nat.ltb_spec d (length (o_bases o))) as [Hd|Hd]; [|discriminate].
+    exact (insert_knots_weights xs o o' d HI HW Hd G GW E).
+  - destruct (Nat.ltb_spec d (length (o_bases o))) as [Hd|Hd]; [|discriminate]. injection E as <-.
+    unfold obj_reverse. cbv zeta. unfold weights_pos. cbn [o_rat o_cps o_dim]. intros Hr. destruct HS as (HL & HV & HP).
+    apply (apply_dir_wpos (o_ncomp o) (o_dim o)).
+    + unfold o_ncomp. rewrite Hr. lia.
+    + unfold o_shape. rewrite map_length. exact Hd.
+    + exact HL.
+    + exact HP.
+    + rewrite o_shape_nth by exact Hd. set (n := b_nfun (nth d (o_bases o) (mkBasis 0 [] 0))).
+      assert (Hn : (0 < n)%nat).
+      { pose proof (inv_nfun_pos o HI) as HN. apply (Forall_nth_in _ _ d (mkBasis 0 [] 0) HN Hd). }
+      unfold rev_matrix. apply Forall_forall. intros row Hrow. apply in_map_iff in Hrow. destruct Hrow as (r & <- & _).
+      apply unit_pos_row. lia.
+    + exact HV.
+    + apply HW. exact Hr.
+  - destruct (Nat.ltb_spec d1 (length (o_bases o))) as [H1|H1]; [|discriminate].
+    destruct (Nat.ltb_spec d2 (length (o_bases o))) as [H2|H2]; [|discriminate]. cbn [andb] in E. injection E as <-.
+    unfold obj_swap, o_pardim. destruct (length (o_bases o) =? 1)%nat; [exact HW|]. cbv zeta.
+    unfold weights_pos. cbn [o_rat o_cps o_dim]. intros Hr. destruct HS as (HL & HV & HP).
+    assert (Hls : length (o_shape o) = length (o_bases o)) by (unfold o_shape; apply map_length).
+    apply reindex_Forall; [apply HW; exact Hr|exact HL|].
+    intros idx Hidx. rewrite <- (swap_idx_invol 0%nat (o_shape o) d1 d2) by lia.
+    apply inshape_swap; [rewrite swap_idx_length; lia|rewrite swap_idx_length; lia|exact Hidx].
+  - destruct (Nat.ltb_spec d (length (o_bases o))) as [Hd|Hd]; [|discriminate].
+    unfold obj_reparam_dir in E. destruct (basis_reparam _ s e) as [b'|er]; [|discriminate]. injection E as <-. exact HW.
+  - unfold obj_translate in E. cbv zeta in E.
+    set (o1 := if (o_dim o <? length x)%nat then obj_set_dimension o (length x) else o) in *.
+    assert (HS1 : shape_ok o1) by (unfold o1; destruct (_ <? _)%nat; [apply shape_ok_set_dimension|]; exact HS).
+    assert (HW1 : weights_pos o1) by (unfold o1; destruct (_ <? _)%nat; [apply weights_set_dimension|]; assumption).
+    destruct (length x <? o_dim o1)%nat; [discriminate|]. injection E as <-.
+    unfold map_cps. apply (weights_map_cps o1 _ (o_dim o1) (o_rat o1) HS1 HW1).
+    intros Hr v Hv Hw. rewrite nth_app_skipn; [apply Hw; exact Hr|rewrite map_length, seq_length; reflexivity].
+  - unfold obj_scale in E. cbv zeta in E. destruct (_ <? _)%nat; [discriminate|]. injection E as <-.
+    unfold map_cps. apply (weights_map_cps o _ (o_dim o) (o_rat o) HS HW).
+    intros Hr v Hv Hw. rewrite nth_app_skipn; [apply Hw; exact Hr|rewrite map_length, seq_length; reflexivity].
+  - injection E as <-. unfold obj_project, map_cps. apply (weights_map_cps o _ (o_dim o) (o_rat o) HS HW).
+    intros Hr v Hv Hw. rewrite nth_app_skipn; [apply Hw; exact Hr|rewrite map_length, seq_length; reflexivity].
+  - injection E as <-. apply weights_set_dimension; assumption.
+  - injection E as <-. unfold obj_force_rational. destruct (o_rat o) eqn:Er; [exact HW|].
+    apply (weights_map_cps o _ (o_dim o) true HS HW). intros _ v Hv _. unfold o_ncomp in Hv. rewrite Er in Hv. cbv iota in Hv. rewrite Nat.add_0_r in Hv.
+    rewrite <- Hv. rewrite app_nth2 by lia. rewrite Nat.sub_diag. cbn [nth n1 NumR]. lra.
+Qed.
+
+(* rotate / mirror / section keep the weights *)
+Lemma rotate_weights (o o' : obj R) ch sh normal iv : inv o -> weights_pos o -> obj_rotate o ch sh normal iv = Ok o' -> weights_pos o'.
+Proof.
+  intros [HS HB] HW. unfold obj_rotate. cbv zeta.
+  match goal with |- context [if ?c then o else obj_set_dimension o 3] => set (cnd := c); set (o1 := if cnd then o else obj_set_dimension o 3) end.
+  assert (HS1 : shape_ok o1) by (unfold o1; destruct cnd; [exact HS|apply shape_ok_set_dimension; exact HS]).
+  assert (HW1 : weights_pos o1) by (unfold o1; destruct cnd; [exact HW|apply weights_set_dimension; assumption]).
+  destruct (Nat.eqb_spec (o_dim o1) 2) as [E2|N2].
+  - match goal with |- Ok ?x = Ok _ -> _ => set (res := x) end. intros [= <-]. unfold res.
+    unfold map_cps. apply (weights_map_cps o1 _ (o_dim o1) (o_rat o1) HS1 HW1).
+    intros Hr v Hv Hw. specialize (Hw Hr). rewrite E2 in *. rewrite nth_app_skipn; [exact Hw|reflexivity].
+  - destruct (Nat.eqb_spec (o_dim o1) 3) as [E3|N3]; [|discriminate].
+    match goal with |- Ok ?x = Ok _ -> _ => set (res := x) end. intros [= <-]. unfold res.
+    unfold map_cps. apply (weights_map_cps o1 _ (o_dim o1) (o_rat o1) HS1 HW1).
+    intros Hr v Hv Hw. specialize (Hw Hr). rewrite E3 in *. rewrite nth_app_skipn; [exact Hw|unfold vecmat; rewrite map_length, seq_length; reflexivity].
+Qed.
+
+Lemma mirror_weights (o o' : obj R) normal iv : inv o -> weights_pos o -> obj_mirror o normal iv = Ok o' -> weights_pos o'.
+Proof.
+  intros [HS HB] HW. unfold obj_mirror. destruct (Nat.eqb_spec (o_dim o) 3) as [E3|N3]; [|discriminate]. cbn [negb]. cbv zeta.
+  match goal with |- Ok ?x = Ok _ -> _ => set (res := x) end. intros [= <-]. unfold res.
+  unfold map_cps. apply (weights_map_cps o _ (o_dim o) (o_rat o) HS HW).
+  intros Hr v Hv Hw. specialize (Hw Hr). rewrite E3 in *. rewrite nth_app_skipn; [exact Hw|unfold vecmat; rewrite map_length, seq_length; reflexivity].
+Qed.
+
+Lemma section_cps_wpos ncomp w : (w < ncomp)%nat -> forall sels shape d (cps : list (list R)), length cps = prodl shape -> (0 < prodl shape)%nat ->
+  Forall (fun v => length v = ncomp) cps -> (d + length sels <= length shape)%nat -> Forall (fun v => 0 < coord w v) cps ->
+  Forall (fun v => 0 < coord w v) (fst (section_cps ncomp shape sels d cps)).
+Proof.
+  intros Hw. induction sels as [|s rest IH]; intros shape d cps HL HP HV Hd HW; cbn [section_cps]; [exact HW|].
+  cbn [length] in Hd.
+  assert (Hn : (0 < nth d shape 0)%nat) by (apply prodl_pos_nth; [exact HP|lia]).
+  assert (G : forall idx, (idx < nth d shape 0)%nat -> let cps' := apply_dir ncomp shape d (sel_matrix (nth d shape 0%nat) idx) cps in
+     length cps' = prodl (upd shape d 1%nat) /\ (0 < prodl (upd shape d 1%nat))%nat /\ Forall (fun v => length v = ncomp) cps' /\
+     Forall (fun v => 0 < coord w v) cps').
+  { intros idx Hidx. cbv zeta. split; [|split; [|split]].
+    - rewrite length_apply_dir; [reflexivity|lia|exact HL|exact HP].
+    - apply prodl_upd_pos; [exact HP|lia].
+    - apply Forall_apply_dir. exact HV.
+    - apply apply_dir_wpos; try assumption; [lia|]. unfold sel_matrix. constructor; [|constructor]. apply unit_pos_row. exact Hidx. }
+  destruct (s =? 0)%nat.
+  - destruct (G 0%nat Hn) as (G1 & G2 & G3 & G4). apply IH; try assumption. rewrite length_upd. lia.
+  - destruct (s =? 1)%nat.
+    + destruct (G (nth d shape 0 - 1)%nat ltac:(lia)) as (G1 & G2 & G3 & G4). apply IH; try assumption. rewrite length_upd. lia.
+    + apply IH; try assumption. lia.
+Qed.
+
+Lemma section_weights (o : obj R) sels : inv o -> weights_pos o -> length sels = length (o_bases o) -> weights_pos (obj_section o sels).
+Proof.
+  intros [(HL & HV & HP) HB] HW Hl. unfold weights_pos, obj_section. cbn [o_rat o_cps o_dim]. intros Hr.
+  apply section_cps_wpos; try assumption.
+  - unfold o_ncomp. rewrite Hr. lia.
+  - unfold o_shape. rewrite map_length. lia.
+  - apply HW. exact Hr.
+Qed.
+
+(* ------------------------------------------------------------------------------------------------ *)
+(* list tools *)
+Lemma nth_app_if {A} (l1 l2 : list A) i d :
+  nth i (l1 ++ l2) d = if (i <? length l1)%nat then nth i l1 d else nth (i - length l1) l2 d.
+Proof. destruct (Nat.ltb_spec i (length l1)); [apply app_nth1|apply app_nth2]; lia. Qed.
+Lemma nth_repeat_lt {A} (x d : A) m i : (i < m)%nat -> nth i (repeat x m) d = x.
+Proof. revert i; induction m; intros i H; [lia|]. destruct i; cbn; [reflexivity|apply IHm; lia]. Qed.
+Lemma nth_slice {A} (l : list A) a b i d : (i < b - a)%nat -> nth i (slice_list l a b) d = nth (a + i) l d.
+Proof. intros H. unfold slice_list. rewrite nth_firstn_lt by exact H. apply nth_skipn_add. Qed.
+Lemma length_slice {A} (l : list A) a b : length (slice_list l a b) = Nat.min (b - a) (length l - a).
+Proof. unfold slice_list. rewrite firstn_length, skipn_length. reflexivity. Qed.
+Lemma nth_map0 (f : R -> R) l i : (i < length l)%nat -> nth i (map f l) 0 = f (nth i l 0).
+Proof.
+  revert i; induction l as [|a l IH]; intros i H; cbn in *; [lia|].
+  destruct i; [reflexivity|]. apply IH. lia.
+Qed.
+
+(* ------------------------------------------------------------------------------------------------ *)
+(* sorted lists with bounds, by index *)
+Definition LSb (lo hi : R) (l : list R) : Prop :=
+  lsortedn l /\ forall i, (i < length l)%nat -> lo <= nth i l 0 <= hi.
+
+Lemma LSb_app lo m hi A B : lo <= m <= hi -> LSb lo m A -> LSb m hi B -> LSb lo hi (A ++ B).
+Proof.
+  intros Hm [SA BA] [SB BB]. split.
+  - intros i j Hij. rewrite app_length in Hij. rewrite !nth_app_if.
+    destruct (Nat.ltb_spec i (length A)) as [Li|Li]; destruct (Nat.ltb_spec j (length A)) as [Lj|Lj]; try lia.
+    + apply SA. lia.
+    + pose proof (BA i Li). pose proof (BB (j - length A)%nat ltac:(lia)). lra.
+    + apply SB. lia.
+  - intros i Hi. rewrite app_length in Hi. rewrite nth_app_if. destruct (Nat.ltb_spec i (length A)) as [Li|Li].
+    + pose proof (BA i Li). lra.
+    + pose proof (BB (i - length A)%nat ltac:(lia)). lra.
+Qed.
+
+Lemma LSb_repeat x n : LSb x x (repeat x n).
+Proof.
+  split.
+  - intros i j Hij. rewrite repeat_length in Hij. rewrite !nth_repeat_lt by lia. lra.
+  - intros i Hi. rewrite repeat_length in Hi. rewrite nth_repeat_lt by lia. lra.
+Qed.
+
+Lemma LSb_slice lo hi l a b : LSb lo hi l -> LSb lo hi (slice_list l a b).
+Proof.
+  intros [SL BL]. split.
+  - intros i j Hij. rewrite length_slice in Hij. rewrite !nth_slice by lia. apply SL. lia.
+  - intros i Hi. rewrite length_slice in Hi. rewrite nth_slice by lia. apply BL. lia.
+Qed.
+
+Lemma LSb_shift lo hi l c : LSb lo hi l -> LSb (lo + c) (hi + c) (map (fun x => x + c) l).
+Proof.
+  intros [SL BL]. split.
+  - intros i j Hij. rewrite map_length in Hij. rewrite !(nth_map0 (fun x => x + c)) by lia. pose proof (SL i j Hij). lra.
+  - intros i Hi. rewrite map_length in Hi. rewrite (nth_map0 (fun x => x + c)) by lia. pose proof (BL i Hi). lra.
+Qed.
+
+Lemma LSb_weaken lo hi lo' hi' l : lo' <= lo -> hi <= hi' -> LSb lo hi l -> LSb lo' hi' l.
+Proof. intros H1 H2 [SL BL]. split; [exact SL|]. intros i Hi. pose proof (BL i Hi). lra. Qed.
+
+(* ------------------------------------------------------------------------------------------------ *)
+(* make_periodic on an open direction with at least order + continuity functions *)
+Section MakePer.
+Variable b : basis R.
+Variable c : nat.
+Hypothesis Hb : knots_ok b.
+Local Notation p := (b_order b).
+Local Notation k := (b_knots b).
+Local Notation s := (b_start b).
+Local Notation e := (b_end b).
+Hypothesis Hc : (c + 2 <= p)%nat.
+Hypothesis Hn : (2 * p + c <= length k)%nat.
+
+Local Notation nk := (slice_list k (p - 1) (length k - (p - 1))).
+
+Lemma mpg_nk_length : length nk = (length k - 2 * p + 2)%nat.
+Proof. rewrite length_slice. lia. Qed.
+
+Lemma mpg_nk_nth i : (i < length k - 2 * p + 2)%nat -> nth i nk 0 = kn k (p - 1 + i).
+Proof. intros Hi. rewrite nth_slice by lia. symmetry. apply kn_in. lia. Qed.
+
+Lemma mpg_nk_LSb : LSb s e nk.
+Proof.
+  destruct Hb as (Hp & Hlen & HK & Hse). split.
+  - intros i j Hij. rewrite mpg_nk_length in Hij. rewrite !mpg_nk_nth by lia. apply HK. lia.
+  - intros i Hi. rewrite mpg_nk_length in Hi. rewrite mpg_nk_nth by lia. unfold b_start, b_end.
+    split; apply HK; lia.
+Qed.
+
+Local Notation k' := (b_knots (basis_make_periodic b c)).
+
+Lemma mpg_knots : k' =
+  map (fun x => x + (s - e)) (slice_list nk (length k - 2 * p - c) (length k - 2 * p + 1)) ++ repeat s (p - 2 - c) ++ nk ++
+  repeat e (p - 2 - c) ++ map (fun x => x + (e - s)) (slice_list nk 1 (c + 2)).
+Proof.
+  unfold basis_make_periodic. cbv zeta. cbn [b_knots]. rewrite mpg_nk_length.
+  replace (p - 1 - c - 1)%nat with (p - 2 - c)%nat by lia.
+  replace (p - 1 - (p - 2 - c))%nat with (c + 1)%nat by lia.
+  replace (length k - 2 * p + 2 - (c + 1) - 1)%nat with (length k - 2 * p - c)%nat by lia.
+  replace (length k - 2 * p + 2 - 1)%nat with (length k - 2 * p + 1)%nat by lia.
+  replace (c + 1 + 1)%nat with (c + 2)%nat by lia.
+  rewrite (map_ext (fun x : R => nsub x (nsub e s)) (fun x => x + (s - e))) by (intros x; cbn [nsub NumR]; ring). reflexivity.
+Qed.
+
+Lemma mpg_head_length : length (slice_list nk (length k - 2 * p - c) (length k - 2 * p + 1)) = (c + 1)%nat.
+Proof. rewrite length_slice, mpg_nk_length. lia. Qed.
+Lemma mpg_tail_length : length (slice_list nk 1 (c + 2)) = (c + 1)%nat.
+Proof. rewrite length_slice, mpg_nk_length. lia. Qed.
+
+Lemma mpg_length : length k' = length k.
+Proof.
+  rewrite mpg_knots. rewrite !app_length, !map_length, !repeat_length, mpg_head_length, mpg_tail_length, mpg_nk_length. lia.
+Qed.
+
+Lemma mpg_LSb : LSb (s + (s - e)) (e + (e - s)) k'.
+Proof.
+  pose proof Hb as (Hp & Hlen & HK & Hse). rewrite mpg_knots. pose proof mpg_nk_LSb as NK.
+  apply (LSb_app _ s _); [lra| |].
+  - apply (LSb_weaken (s + (s - e)) (e + (s - e))); [lra|lra|]. apply LSb_shift. apply LSb_slice. exact NK.
+  - apply (LSb_app _ s _); [lra|apply LSb_repeat|]. apply (LSb_app _ e _); [lra|exact NK|].
+    apply (LSb_app _ e _); [lra|apply LSb_repeat|].
+    apply (LSb_weaken (s + (e - s)) (e + (e - s))); [lra|lra|]. apply LSb_shift. apply LSb_slice. exact NK.
+Qed.
+
+Lemma mpg_nth_mid i : (i < length k - 2 * p + 2)%nat -> nth (p - 1 + i) k' 0 = kn k (p - 1 + i).
+Proof.
+  intros Hi. rewrite mpg_knots. rewrite app_nth2 by (rewrite map_length, mpg_head_length; lia).
+  rewrite map_length, mpg_head_length. rewrite app_nth2 by (rewrite repeat_length; lia). rewrite repeat_length.
+  rewrite app_nth1 by (rewrite mpg_nk_length; lia). replace (p - 1 + i - (c + 1) - (p - 2 - c))%nat with i by lia.
+  apply mpg_nk_nth. exact Hi.
+Qed.
+
+Lemma knots_ok_make_periodic : knots_ok (basis_make_periodic b c) /\ b_start (basis_make_periodic b c) = s /\
+  b_end (basis_make_periodic b c) = e /\ b_nfun (basis_make_periodic b c) = (length k - p - c - 1)%nat /\
+  b_order (basis_make_periodic b c) = p /\ b_per1 (basis_make_periodic b c) = (c + 1)%nat.
+Proof.
+  pose proof Hb as (Hp & Hlen & HK & Hse).
+  assert (Hs : b_start (basis_make_periodic b c) = s).
+  { unfold b_start at 1. change (b_order (basis_make_periodic b c)) with p. rewrite (kn_in k' (p - 1)%nat ltac:(rewrite mpg_length; lia) 0).
+    replace (p - 1)%nat with (p - 1 + 0)%nat at 1 by lia. rewrite mpg_nth_mid by lia. rewrite Nat.add_0_r. reflexivity. }
+  assert (He : b_end (basis_make_periodic b c) = e).
+  { unfold b_end at 1. change (b_order (basis_make_periodic b c)) with p. rewrite mpg_length.
+    rewrite (kn_in k' (length k - p)%nat ltac:(rewrite mpg_length; lia) 0).
+    replace (length k - p)%nat with (p - 1 + (length k - 2 * p + 1))%nat at 1 by lia. rewrite mpg_nth_mid by lia.
+    unfold b_end. f_equal. lia. }
+  split; [|split; [exact Hs|split; [exact He|split; [|split; reflexivity]]]].
+  - split; [exact Hp|]. split; [change (b_order (basis_make_periodic b c)) with p; rewrite mpg_length; exact Hlen|].
+    split; [|rewrite Hs, He; exact Hse]. apply sorted_kn_of_nth. apply mpg_LSb.
+  - unfold b_nfun at 1. change (b_order (basis_make_periodic b c)) with p. change (b_per1 (basis_make_periodic b c)) with (c + 1)%nat.
+    rewrite mpg_length. lia.
+Qed.
+End MakePer.
+
+(* the merging matrix of make_periodic: convex combinations of unit rows *)
+Lemma pos_row_intro n row : length row = n -> (forall j, (j < n)%nat -> 0 <= nth j row 0) -> (exists j, (j < n)%nat /\ 0 < nth j row 0) -> pos_row n row.
+Proof.
+  intros Hl Hn (j & Hj & Hp). split; [exact Hl|]. split.
+  - apply Forall_forall. intros x Hx. destruct (In_nth _ _ 0 Hx) as (i & Hi & <-). apply Hn. lia.
+  - apply Exists_exists. exists (nth j row 0). split; [apply nth_In; lia|exact Hp].
+Qed.
+Lemma pos_row_elim n row : pos_row n row -> length row = n /\ (forall j, (j < n)%nat -> 0 <= nth j row 0) /\ (exists j, (j < n)%nat /\ 0 < nth j row 0).
+Proof.
+  intros (Hl & Hn & Hp). split; [exact Hl|]. split.
+  - intros j Hj. rewrite Forall_forall in Hn. apply Hn. apply nth_In. lia.
+  - apply Exists_exists in Hp. destruct Hp as (x & Hx & Hpos). destruct (In_nth _ _ 0 Hx) as (i & Hi & <-). exists i. split; [lia|exact Hpos].
+Qed.
+
+Lemma pos_row_convex n t a b : 0 <= t <= 1 -> pos_row n a -> pos_row n b -> pos_row n (vadd (vscale t a) (vscale (nsub n1 t) b)).
+Proof.
+  intros Ht Ha Hb. apply pos_row_elim in Ha. apply pos_row_elim in Hb. destruct Ha as (La & Na & (ja & Hja & Pa)). destruct Hb as (Lb & Nb & (jb & Hjb & Pb)).
+  assert (E : forall j, (j < n)%nat -> nth j (vadd (vscale t a) (vscale (nsub n1 t) b)) 0 = t * nth j a 0 + (1 - t) * nth j b 0).
+  { intros j Hj. change (nth j (vadd (vscale t a) (vscale (nsub n1 t) b)) 0) with (coord j (vadd (vscale t a) (vscale (nsub n1 t) b))).
+    rewrite coord_vadd by (rewrite length_vscale; lia). rewrite !coord_vscale. reflexivity. }
+  apply pos_row_intro.
+  - rewrite length_vadd, !length_vscale. lia.
+  - intros j Hj. rewrite E by exact Hj. pose proof (Na j Hj). pose proof (Nb j Hj). nra.
+  - destruct (Rle_lt_dec t 0) as [T0|T0].
+    + exists jb. split; [exact Hjb|]. rewrite E by exact Hjb. pose proof (Na jb Hjb). nra.
+    + exists ja. split; [exact Hja|]. rewrite E by exact Hja. pose proof (Nb ja Hja). nra.
+Qed.
+
+Lemma merge_t_range c i : (i <= c)%nat ->
+  0 <= (if (c =? 0)%nat then ndiv n1 (nofZ 2%Z) else ndiv (@nofnat R NumR i) (@nofnat R NumR c)) <= 1.
+Proof.
+  intros Hi. destruct (Nat.eqb_spec c 0) as [->|Hc]; cbn [ndiv n1 nofZ NumR]; [lra|]. unfold nofnat. cbn [nofZ NumR].
+  assert (0 < IZR (Z.of_nat c)) by (apply IZR_lt; lia). assert (0 <= IZR (Z.of_nat i)) by (apply IZR_le; lia).
+  assert (IZR (Z.of_nat i) <= IZR (Z.of_nat c)) by (apply IZR_le; lia).
+  split; [apply div_nonneg; lra|]. apply (Rmult_le_reg_r (IZR (Z.of_nat c))); [lra|]. unfold Rdiv. rewrite Rmult_assoc, Rinv_l by lra. lra.
+Qed.
+
+Lemma merge_matrix_rows n c : (c + 1 <= n)%nat ->
+  length (periodic_merge_matrix n c) = (n - c - 1)%nat /\ Forall (pos_row n) (@periodic_merge_matrix R NumR n c).
+Proof.
+  intros Hn. unfold periodic_merge_matrix. cbv zeta.
+  match goal with |- context [fold_left ?f _ _] => set (step := f) end.
+  assert (G : forall idx rows, Forall (fun i => i <= c)%nat idx -> length rows = n -> Forall (pos_row n) rows ->
+     length (fold_left step idx rows) = n /\ Forall (pos_row n) (fold_left step idx rows)).
+  { induction idx as [|i idx IH]; intros rows Hidx Hl Hr; cbn [fold_left]; [split; assumption|].
+    inversion Hidx; subst. apply IH; [assumption|unfold step; rewrite length_upd; reflexivity|].
+    unfold step. apply Forall_upd; [exact Hr|]. apply pos_row_convex; [apply merge_t_range; assumption| |]; apply Forall_nth_in; try assumption; lia. }
+  destruct (G (seq 0 (c + 1)) (map (@Periodic.unit_row R NumR n) (seq 0 n))) as [G1 G2].
+  - apply Forall_forall. intros i Hi. apply in_seq in Hi. lia.
+  - rewrite map_length, seq_length. reflexivity.
+  - rewrite Forall_map. apply Forall_forall. intros i Hi. apply in_seq in Hi. apply unit_pos_row. lia.
+  - split; [rewrite firstn_length, G1; lia|apply Forall_firstn; exact G2].
+Qed.
+
+(* SplineObject.make_periodic: side condition "at least order + continuity functions in that direction" *)
+Definition guard_make_periodic (o : obj R) (cont : Z) (d : nat) : Prop :=
+  let b := nth d (o_bases o) dflt_basis in (b_order b + Z.to_nat cont <= b_nfun b)%nat.
+
+Lemma make_periodic_inv (o o' : obj R) cont d : inv o -> (d < length (o_bases o))%nat -> guard_make_periodic o cont d ->
+  obj_make_periodic o cont d = Ok o' -> inv o'.
+Proof.
+  intros HI Hd G. pose proof HI as [HS HB]. unfold obj_make_periodic, guard_make_periodic in *. cbv zeta in *. fold dflt_basis.
+  set (b := nth d (o_bases o) dflt_basis) in *.
+  destruct (Z.ltb_spec cont (-1)) as [C1|C1]; [discriminate|]. destruct (Z.ltb_spec (Z.of_nat (b_order b) - 2) cont) as [C2|C2]; [discriminate|].
+  cbn [orb]. destruct (Z.eqb_spec cont (-1)) as [C3|C3]; [discriminate|].
+  destruct (Nat.eqb_spec (b_per1 b) 0) as [Hper|Hper]; [|discriminate]. cbn [negb]. intros [= <-].
+  pose proof (Forall_nth_in _ _ d dflt_basis HB Hd) as Hb. fold b in Hb.
+  assert (Hc : (Z.to_nat cont + 2 <= b_order b)%nat) by lia.
+  assert (Hn : (2 * b_order b + Z.to_nat cont <= length (b_knots b))%nat) by (unfold b_nfun in G; lia).
+  destruct (knots_ok_make_periodic b (Z.to_nat cont) Hb Hc Hn) as (K1 & K2 & K3 & K4 & K5 & K6).
+  assert (Hm : (Z.to_nat cont + 1 <= b_nfun b)%nat) by lia.
+  destruct (merge_matrix_rows (b_nfun b) (Z.to_nat cont) Hm) as [M1 M2].
+  unfold obj_along. split.
+  - apply shape_ok_along; [exact HS|exact Hd| |].
+    + rewrite M1, K4. unfold b_nfun. rewrite Hper. lia.
+    + rewrite M1. lia.
+  - cbn [o_bases]. apply Forall_upd; assumption.
+Qed.
+
+Lemma make_periodic_weights (o o' : obj R) cont d : inv o -> weights_pos o -> (d < length (o_bases o))%nat -> guard_make_periodic o cont d ->
+  obj_make_periodic o cont d = Ok o' -> weights_pos o'.
+Proof.
+  intros HI HW Hd G. pose proof HI as [HS HB]. unfold obj_make_periodic, guard_make_periodic in *. cbv zeta in *. fold dflt_basis.
+  set (b := nth d (o_bases o) dflt_basis) in *.
+  destruct (Z.ltb_spec cont (-1)) as [C1|C1]; [discriminate|]. destruct (Z.ltb_spec (Z.of_nat (b_order b) - 2) cont) as [C2|C2]; [discriminate|].
+  cbn [orb]. destruct (Z.eqb_spec cont (-1)) as [C3|C3]; [discriminate|].
+  destruct (Nat.eqb_spec (b_per1 b) 0) as [Hper|Hper]; [|discriminate]. cbn [negb]. intros [= <-].
+  assert (Hm : (Z.to_nat cont + 1 <= b_nfun b)%nat) by lia.
+  destruct (merge_matrix_rows (b_nfun b) (Z.to_nat cont) Hm) as [M1 M2].
+  unfold obj_along, weights_pos. cbn [o_rat o_cps o_dim]. intros Hr. destruct HS as (HL & HV & HP).
+  apply (apply_dir_wpos (o_ncomp o) (o_dim o)).
+  - unfold o_ncomp. rewrite Hr. lia.
+  - unfold o_shape. rewrite map_length. exact Hd.
+  - exact HL.
+  - exact HP.
+  - rewrite o_shape_nth by exact Hd. exact M2.
+  - exact HV.
+  - apply HW. exact Hr.
 Qed.
